@@ -258,7 +258,7 @@ pub fn run_pipeline_case(
         expected_first: (!policy_on).then(|| expected_first.clone()),
         expected_second: if policy_on { None } else { expected_second.clone() },
     };
-    let SimResult { verdict, sched: sched_out, monitor, steps, trace_hash, fault_counts, log } =
+    let SimResult { verdict, sched: sched_out, monitor, steps, trace_hash, fault_counts, log, .. } =
         run::run_sim(scenario, sched, replay, &opts);
     if let Some(log) = &log {
         for (i, (task, site)) in log.iter().enumerate() {
@@ -324,6 +324,9 @@ pub fn run_pipeline_case(
             findings.push(finding("HARNESS", "harness_error", msg.clone()));
             summary = format!("harness error: {msg}");
         }
+        Verdict::CustomCompleted => {
+            findings.push(finding("HARNESS", "harness_error", "component result in a pipeline case".into()));
+        }
         Verdict::Completed(out) => {
             stats.completed = true;
             let mut out = *out;
@@ -344,6 +347,32 @@ pub fn run_pipeline_case(
             // ---- entry-point results (single caller: exactly one call; C14 handles multi-caller)
             let calls = &out.first.calls;
             let main_call = calls.iter().find(|c| !matches!(&c.outcome, CallOutcome::Err { kind: ErrKind::OnlyOnce, .. }));
+            // C14: among all concurrent / successive entry-point calls exactly one runs the block
+            let total_calls: usize = s.callers.iter().map(|c| c.len()).sum();
+            if total_calls > 1 {
+                let winners = calls.iter().filter(|c| !matches!(&c.outcome, CallOutcome::Err { kind: ErrKind::OnlyOnce, .. })).count();
+                if calls.len() != total_calls {
+                    findings.push(finding("C14", "calls_lost", format!("{} of {total_calls} entry-point calls returned", calls.len())));
+                }
+                if winners != 1 {
+                    findings.push(finding(
+                        "C14",
+                        "winner_count",
+                        format!(
+                            "{winners} of {} entry-point calls ran the block: {:?}",
+                            calls.len(),
+                            calls.iter().map(|c| format!("caller{} {:?} -> {}", c.caller, c.entry, summarise_call(Some(c)))).collect::<Vec<_>>()
+                        ),
+                    ));
+                }
+                for c in calls.iter() {
+                    if let CallOutcome::Err { kind: ErrKind::OnlyOnce, txid, .. } = &c.outcome &&
+                        *txid >= s.txs.len().max(1)
+                    {
+                        findings.push(finding("C14", "rejected_call_txid", format!("rejected call reports txid {txid} for a block of {}", s.txs.len())));
+                    }
+                }
+            }
             let bundle = out.first.state.parallel_take_bundle(want.retention());
             let actual_outcomes = &out.first.outcomes;
             summary = format!(
@@ -662,6 +691,7 @@ pub fn run_relation_case(scenario: &Arc<Scenario>, sched: &SchedSpec, replay: Op
                 findings.push(finding("HARNESS", "harness_error", m));
                 None
             }
+            Verdict::CustomCompleted => None,
         }
     };
 
@@ -675,7 +705,7 @@ pub fn run_relation_case(scenario: &Arc<Scenario>, sched: &SchedSpec, replay: Op
     let sb = Arc::new(sb);
     let mut sched_b = sched.clone();
     sched_b.seed = crate::prng::derive(sched.seed, 0xb0b);
-    sched_b.strategy = (sched.strategy + 1) % 5;
+    sched_b.strategy = (sched.strategy + 1) % 6;
     if let Some(b) = sim_variant("parallel-other-workers", &sb, &sched_b, None, false, &mut findings, &mut stats) {
         summaries.push(b);
     }
@@ -760,4 +790,32 @@ pub fn run_relation_case(scenario: &Arc<Scenario>, sched: &SchedSpec, replay: Op
     stats.behaviour = behaviour;
     let summary = summaries.iter().map(|r| format!("{}={}", r.name, r.call.chars().take(40).collect::<String>())).collect::<Vec<_>>().join(" ");
     CaseOutput { findings, stats, trace: if want.record_trace { trace_out } else { None }, summary }
+}
+
+
+/// C14: before any execution `take_result_and_state()` returns no outcomes and an untouched state.
+pub fn fresh_scheduler_check(s: &Scenario) -> Vec<Finding> {
+    use crate::evmenv::{make_block, make_cfg, make_tx};
+    let mut findings = Vec::new();
+    let db = Arc::new(SimDb::from_scenario(s, false, false));
+    let state = run::new_parallel_state(s, Arc::clone(&db));
+    let accounts_before = state.cache.accounts.len();
+    let storage_before = state.cache.storage.len();
+    let txs = Arc::new(s.txs.iter().map(make_tx).collect::<Vec<_>>());
+    let scheduler = grevm::Scheduler::new_with_runtime_config(make_cfg(&s.evm), make_block(&s.block), txs, state, None, run::grevm_config(s));
+    let (outcomes, mut state) = scheduler.take_result_and_state();
+    if !outcomes.is_empty() {
+        findings.push(finding("C14", "fresh.outcomes", format!("{} outcomes before any execution", outcomes.len())));
+    }
+    if state.cache.accounts.len() != accounts_before || state.cache.storage.len() != storage_before || !state.cache.contracts.is_empty() && !s.warm_cache {
+        findings.push(finding("C14", "fresh.cache_touched", "cache changed before any execution".into()));
+    }
+    if db.stats.calls.load(std::sync::atomic::Ordering::Relaxed) != 0 {
+        findings.push(finding("C14", "fresh.database_read", "database read before any execution".into()));
+    }
+    let bundle = state.parallel_take_bundle(BundleRetention::Reverts);
+    if !bundle.state.is_empty() || !bundle.contracts.is_empty() || bundle.reverts.iter().any(|r| !r.is_empty()) {
+        findings.push(finding("C14", "fresh.bundle", "non-empty bundle before any execution".into()));
+    }
+    findings
 }
